@@ -254,6 +254,8 @@ pub enum Op
     RemoveTarget { rule: u16, k: u16 },
     AddRule { spec: RuleSpec },
     RemoveRule { rule: u16 },
+    /// remove a rule that other rules depend on: its targets become plain source files of those rules
+    OrphanRule { rule: u16 },
     Reformat { seed: u16, bundle: bool },
     Build { goal: Option<u16> },
     Clean { goal: Option<u16> },
@@ -289,6 +291,7 @@ impl Op
             Op::RemoveTarget { .. } => "remove-target",
             Op::AddRule { .. } => "add-rule",
             Op::RemoveRule { .. } => "remove-rule",
+            Op::OrphanRule { .. } => "orphan-rule",
             Op::Reformat { .. } => "reformat",
             Op::Build { goal: None } => "build",
             Op::Build { goal: Some(_) } => "build-goal",
@@ -323,13 +326,15 @@ pub struct OpMix
     pub delete_leaf: bool,
     pub swaps: u32,
     pub dir_ops: u32,
+    /// removing a rule that others depend on (its targets become plain, possibly missing, sources)
+    pub orphan: bool,
 }
 
 impl OpMix
 {
     pub fn full() -> OpMix
     {
-        OpMix { rule_edits: true, ruler_dir_damage: true, cleans: true, delete_leaf: false, swaps: 1, dir_ops: 1 }
+        OpMix { rule_edits: true, ruler_dir_damage: true, cleans: true, delete_leaf: false, swaps: 1, dir_ops: 1, orphan: true }
     }
 }
 
@@ -353,6 +358,7 @@ pub fn op(mix: OpMix) -> impl Strategy<Value = Op>
         (re, (any::<u16>(), any::<u16>()).prop_map(|(rule, k)| Op::RemoveTarget { rule, k }).boxed()),
         (re, rule_spec(3, false).prop_map(|spec| Op::AddRule { spec }).boxed()),
         (re, any::<u16>().prop_map(|rule| Op::RemoveRule { rule }).boxed()),
+        (if mix.orphan { re } else { 0 }, any::<u16>().prop_map(|rule| Op::OrphanRule { rule }).boxed()),
         (re, (any::<u16>(), any::<bool>()).prop_map(|(seed, bundle)| Op::Reformat { seed, bundle }).boxed()),
         (16, goal.prop_map(|goal| Op::Build { goal }).boxed()),
         (4 * cl, goal2.prop_map(|goal| Op::Clean { goal }).boxed()),
